@@ -454,6 +454,8 @@ def _check_value_to_raw(run, repo, world, mod):
     nv = world.cls(LOC + ".NumericValue")
     fn = nv.methods["value_to_raw"][1]
     Q = LOC + ".NumericValue.value_to_raw"
+    from ..unroll import detable
+    fn, _ = detable(fn)
     ps = paths.summaries(fn)
     # the numeric encoding: every returned to_bytes call
     tb = []
